@@ -232,7 +232,7 @@ const STUB_LOOP: &[&str] = &[
     "the TSC instruction — dsim virtual counter (hook H5)",
     "the wrapped allocator — MockAlloc (fabricated pointers, never dereferenced)",
     "measurement of benchmarking overheads — simulator-provided constants (hook H6)",
-    "Timer::Os — not exercised",
+    "Instant::now — under simulation the OS timer reads the virtual clock (hook H9; 1 run in 5 uses Timer::Os)",
 ];
 
 fn check_loop(prop: Prop, tier: Tier, seed: u64) -> i32 {
